@@ -104,11 +104,12 @@ class VecV:
 
 
 class Closure:
-    __slots__ = ("path", "upvars")
+    __slots__ = ("path", "upvars", "ckey")
 
-    def __init__(self, path, upvars):
+    def __init__(self, path, upvars, ckey=None):
         self.path = path
         self.upvars = tuple(upvars)
+        self.ckey = ckey
 
     def __repr__(self):
         return "closure<%s>" % self.path
@@ -389,7 +390,7 @@ class Interp:
             if isinstance(v, Closure):
                 fs = list(v.upvars)
                 fs[i] = self._set(fs[i], rest, newv, None)
-                return Closure(v.path, fs)
+                return Closure(v.path, fs, v.ckey)
             if isinstance(v, Opaque):
                 self.events.append(("write-into-opaque", v, i, newv))
                 return v
@@ -551,7 +552,7 @@ class Interp:
             if ak == "adt":
                 return Adt(rv["adt"], rv["variant"], ops)
             if ak == "closure":
-                return Closure(rv["closure"], ops)
+                return Closure(rv["closure"], ops, rv.get("ckey"))
             raise Unsupported("aggregate " + ak)
         if k == "repeat":
             v = self.operand(fr, rv["o"])
@@ -767,6 +768,17 @@ class Interp:
             r = self.h.on_call(self, fn, args, dest_ty, term, caller)
             if r is not NotImplemented:
                 return r
+        # 1b. Fn*::call on a closure / fn item value whose type is a generic parameter (no resolved callee)
+        if path.split("::")[-1] in ("call", "call_mut", "call_once") and fn.get("trait", "").split("::")[-1] in ("Fn", "FnMut", "FnOnce") \
+                and len(args) == 2 and isinstance(args[1], Tup) and not fn.get("rpath"):
+            rv = args[0]
+            n = 0
+            while isinstance(rv, Ref) and n < 3:
+                rv = self.read(rv.cell, rv.path)
+                n += 1
+            if isinstance(rv, (Closure, FnItem)):
+                from . import models as _m
+                return _m.call_callable(self, args[0] if isinstance(rv, Closure) else rv, list(args[1].fields), term, caller, depth)
         # 2. builtin models
         from . import models
         r = models.apply(self, fn, args, dest_ty, term, caller, depth)
